@@ -1977,6 +1977,7 @@ impl Interp {
             ("inflight", []) => self.op_inflight(),
             ("trace", [a]) => self.op_trace(a),
             ("inject", a) => self.op_inject(a),
+            ("x-w2d", a) => self.op_ext_w2d(a), // ext w2d (single dispatch line)
             ("late-release", [ns]) => self.op_late_release(ns), // ext w2c (single dispatch line)
             ("timers", []) => {
                 let v = sim::with(|w| std::mem::take(&mut w.timer_requests));
@@ -2097,6 +2098,185 @@ impl Interp {
     }
 }
 // ---- END ext w2c
+
+// ---- BEGIN ext w2d (C26: arbitrary groupings of real datagrams; a test type with a STRING member) ----
+// `x-w2d merge-held <k1> <k2> ...` : the held datagrams (send order) are cut into consecutive groups of k1, k2, ...
+//        datagrams (what is left over goes out one by one); each group becomes ONE RTPS message
+//        (`first ++ others[20..]`, the generalisation of the pair-wise `coalesce-next`) sent to the locators of its
+//        first member; groups whose members differ in source or locators are not merged. Answer `ok <datagrams queued>`.
+// `x-w2d s-topic <name> <participant> <topic name> [topic qos]`, `x-w2d s-writer <name> <publisher> <topic> [qos]`,
+// `x-w2d s-reader <name> <subscriber> <topic|cft> [qos]`, `x-w2d s-write <writer> <id> <string>`,
+// `x-w2d s-dispose <writer> <id>`, `x-w2d s-take <reader>` : the same as topic/writer/reader/write/dispose/take for the type
+//        `KeyedStr {#[key] id: i32, name: String}` (string token `%e` = empty string). The topic is entered in the
+//        entity table (so `cft`, `delete`, `handle` work on it); writers/readers of this type live in a table of their own.
+#[derive(Clone, Debug, PartialEq, DdsType)]
+struct KeyedStr {
+    #[dust_dds(key)]
+    id: i32,
+    name: String,
+}
+impl TT for KeyedStr {
+    const KEYED: bool = true;
+    const TYPE_NAME: &'static str = "KeyedStr";
+    fn make(id: i32, v: &str) -> Result<Self, String> {
+        Ok(KeyedStr { id, name: if v == "%e" { String::new() } else { v.to_string() } })
+    }
+    fn show(&self) -> String {
+        format!("{}:{}", self.id, if self.name.is_empty() { "%e" } else { self.name.as_str() })
+    }
+}
+#[derive(Clone)]
+enum SEnt {
+    W(DataWriterAsync<KeyedStr>),
+    R(DataReaderAsync<KeyedStr>),
+}
+thread_local! {
+    static S_ENTS: std::cell::RefCell<BTreeMap<String, SEnt>> = std::cell::RefCell::new(BTreeMap::new());
+}
+impl Interp {
+    fn op_ext_w2d(&mut self, toks: &[&str]) -> Res {
+        let Some((&sub, args)) = toks.split_first() else { return Err("usage: x-w2d <sub-op> ...".into()) };
+        match sub {
+            "merge-held" => {
+                let sizes: Vec<usize> = args.iter().map(|t| t.parse::<usize>().map_err(|_| "bad group size".to_string())).collect::<Result<_, _>>()?;
+                if sizes.iter().any(|k| *k == 0) {
+                    return Err("group size 0".into());
+                }
+                let n = sim::with(|w| {
+                    let mut held = std::mem::take(&mut w.held);
+                    held.sort_by_key(|d| d.id);
+                    let mut groups: Vec<Vec<sim::Datagram>> = vec![];
+                    let mut it = held.into_iter();
+                    for k in sizes.iter().copied().chain(std::iter::repeat(1)) {
+                        let g: Vec<sim::Datagram> = it.by_ref().take(k).collect();
+                        if g.is_empty() {
+                            break;
+                        }
+                        groups.push(g);
+                    }
+                    let mut n = 0;
+                    for g in groups {
+                        let same = g.iter().all(|d| d.from == g[0].from && d.locators == g[0].locators && d.buf.len() >= 20);
+                        let ports = |d: &sim::Datagram| d.locators.iter().map(|l| l.port()).collect::<Vec<u32>>();
+                        if same {
+                            let mut buf = g[0].buf.clone();
+                            for d in &g[1..] {
+                                buf.extend_from_slice(&d.buf[20..]);
+                            }
+                            w.inject(g[0].from, buf, &ports(&g[0]));
+                            n += 1;
+                        } else {
+                            for d in &g {
+                                w.inject(d.from, d.buf.clone(), &ports(d));
+                                n += 1;
+                            }
+                        }
+                    }
+                    n
+                });
+                sim::settle().map_err(Fail::Stop)?;
+                Ok(format!("ok {n}"))
+            }
+            "s-topic" => {
+                let (plain, kv) = split_kv(args);
+                let [name, parent, topic_name] = plain[..] else { return Err("usage: x-w2d s-topic <name> <participant> <topic_name> [qos]".into()) };
+                let (p, _) = self.participant(parent)?;
+                let qos = if kv.is_empty() {
+                    QosKind::Default
+                } else {
+                    let mut q = TopicQos::default();
+                    apply_topic_qos(&mut q, &kv)?;
+                    QosKind::Specific(q)
+                };
+                let tn = topic_name.to_string();
+                let r = blk(async move { p.create_topic::<KeyedStr>(&tn, KeyedStr::TYPE_NAME, qos, None::<Rec>, &[]).await })?;
+                Ok(match r {
+                    Ok(x) => {
+                        let h = x.get_instance_handle();
+                        // the `Ty` tag is only used by the ops that create typed writers/readers; `s-writer`/`s-reader` ignore it
+                        self.ents.insert(name.to_string(), Ent::Topic(x, Ty::Ki));
+                        format!("ok {}", hx(&h))
+                    }
+                    Err(e) => err_name(&e),
+                })
+            }
+            "s-writer" => {
+                let (plain, kv) = split_kv(args);
+                let [name, parent, topic] = plain[..] else { return Err("usage: x-w2d s-writer <name> <publisher> <topic> [qos]".into()) };
+                let p = self.publisher(parent)?;
+                let (t, _) = self.topic(topic)?;
+                let qos = if kv.is_empty() {
+                    QosKind::Default
+                } else {
+                    let mut q = DataWriterQos::default();
+                    apply_writer_qos(&mut q, &kv)?;
+                    QosKind::Specific(q)
+                };
+                let r = blk(async move { p.create_datawriter::<KeyedStr>(&t, qos, None::<Rec>, &[]).await })?;
+                Ok(match r {
+                    Ok(w) => {
+                        let h = w.get_instance_handle();
+                        S_ENTS.with(|m| m.borrow_mut().insert(name.to_string(), SEnt::W(w)));
+                        format!("ok {}", hx(&h))
+                    }
+                    Err(e) => err_name(&e),
+                })
+            }
+            "s-reader" => {
+                let (plain, kv) = split_kv(args);
+                let [name, parent, topic] = plain[..] else { return Err("usage: x-w2d s-reader <name> <subscriber> <topic|cft> [qos]".into()) };
+                let s = self.subscriber(parent)?;
+                let qos = if kv.is_empty() {
+                    QosKind::Default
+                } else {
+                    let mut q = DataReaderQos::default();
+                    apply_reader_qos(&mut q, &kv)?;
+                    QosKind::Specific(q)
+                };
+                let te = self.ent(topic)?;
+                let r: DdsResult<DataReaderAsync<KeyedStr>> = blk(async move {
+                    match &te {
+                        Ent::Topic(t, _) => s.create_datareader::<KeyedStr>(t, qos, None::<Rec>, &[]).await,
+                        Ent::Cft(t, _) => s.create_datareader::<KeyedStr>(t, qos, None::<Rec>, &[]).await,
+                        _ => Err(DdsError::Error("not-a-topic".into())),
+                    }
+                })?;
+                Ok(match r {
+                    Ok(x) => {
+                        let h = x.get_instance_handle();
+                        S_ENTS.with(|m| m.borrow_mut().insert(name.to_string(), SEnt::R(x)));
+                        format!("ok {}", hx(&h))
+                    }
+                    Err(DdsError::Error(m)) if m == "not-a-topic" => return Err(format!("{topic} is not a topic").into()),
+                    Err(e) => err_name(&e),
+                })
+            }
+            "s-write" => {
+                let [name, id, val] = args[..] else { return Err("usage: x-w2d s-write <writer> <id> <string>".into()) };
+                let id: i32 = id.parse().map_err(|_| "bad id".to_string())?;
+                let Some(SEnt::W(w)) = S_ENTS.with(|m| m.borrow().get(name).cloned()) else { return Err(format!("{name} is not a string writer").into()) };
+                let val = val.to_string();
+                let r = blk(async move { do_write(&w, WriteOp::Write, id, &val, None, None).await })?;
+                Ok(r?)
+            }
+            "s-dispose" => {
+                let [name, id] = args[..] else { return Err("usage: x-w2d s-dispose <writer> <id>".into()) };
+                let id: i32 = id.parse().map_err(|_| "bad id".to_string())?;
+                let Some(SEnt::W(w)) = S_ENTS.with(|m| m.borrow().get(name).cloned()) else { return Err(format!("{name} is not a string writer").into()) };
+                let r = blk(async move { do_write(&w, WriteOp::Dispose, id, "%e", None, None).await })?;
+                Ok(r?)
+            }
+            "s-take" => {
+                let [name] = args[..] else { return Err("usage: x-w2d s-take <reader>".into()) };
+                let Some(SEnt::R(r)) = S_ENTS.with(|m| m.borrow().get(name).cloned()) else { return Err(format!("{name} is not a string reader").into()) };
+                let a = ReadArgs { max: i32::MAX, ss: parse_ss("any")?, vs: parse_vs("any")?, is: parse_is("any")? };
+                Ok(blk(async move { do_read(&r, ReadOp::Take, &a, None).await })?)
+            }
+            _ => Err(format!("unknown x-w2d sub-op {sub}").into()),
+        }
+    }
+}
+// ---- END ext w2d ----
 
 // ------------------------------------------------------------------------------------------------ supervisor
 
